@@ -15,7 +15,7 @@ import (
 func init() {
 	register(&Property{
 		ID:          "C13",
-		Explanation: "Decides a structural necessary condition of the fixed-point clause of 'valid, stable output': the parser and the printer agree on operator precedence, associativity and spelling. The printer parenthesises from js_ast.OpTable[op].Level; for every binary operator the parser builds in parseSuffix, the level at which it stops (`if level >= L { return left }`), the level it parses the right operand at, and OpTable's level for that operator must be consistent (right operand at L for left-associative operators, L-1 for right-associative and assignment operators); OpTable must have exactly one positional entry per OpCode constant and mark exactly the alphabetic operator texts as keywords. If they disagree, print∘parse regroups some expression. R2 (in-operator containment): in a for-loop initialiser an `in` operator may only appear inside brackets; every recursive printExpr/printExprWithoutLeadingNewline call whose level argument is below js_ast.LCompare, made in a function that has the caller's flags in hand, must pass flags computed with the forbidIn bit (bit-level dataflow through |, &, &^, phis and the binary visitor's fields) or be one of the reviewed children printed between brackets. R3 (start-hazard consultation): the printExpr case of each node kind that begins with `{`, `function`, `class`, `let`/`async` reads the start marker (stmtStart, exportDefaultStart, arrowExprStart, forOfInitStart, forInitStart) that the grammar's lookahead restriction requires. R5 visit-order: for every statement/expression kind the visit pass visits the children in the order the parse pass parsed them. R6 escape-denotation: the C01/R3 analysis. R7 shape-tests-unwrap-inlined-enum: every type test that decides parentheses around the left operand of `**` is made on the value that passed through the EInlinedEnum unwrapping. R8 line-terminator-set-complete: the C01/R7 analysis. R9 token-enum-vs-character: the C06/R7 lint. R10 escaped-identifier-end-is-guarded: the C01/R8 analysis. R11 dot-after-expression-guarded: every path from the printExpr call that printed a target to a print of `.` consults needSpaceBeforeDot. R12 fixed-child-levels: eleven grammar-fixed child positions are printed with the level constant their category requires. NOT covered: acceptance of the full grammar, ASI and token gluing in the printer (a typestate rule for that was tried and dropped, see DESIGN.md), validity of output beyond this clause.",
+		Explanation: "Decides a structural necessary condition of the fixed-point clause of 'valid, stable output': the parser and the printer agree on operator precedence, associativity and spelling. The printer parenthesises from js_ast.OpTable[op].Level; for every binary operator the parser builds in parseSuffix, the level at which it stops (`if level >= L { return left }`), the level it parses the right operand at, and OpTable's level for that operator must be consistent (right operand at L for left-associative operators, L-1 for right-associative and assignment operators); OpTable must have exactly one positional entry per OpCode constant and mark exactly the alphabetic operator texts as keywords. If they disagree, print∘parse regroups some expression. R2 (in-operator containment): in a for-loop initialiser an `in` operator may only appear inside brackets; every recursive printExpr/printExprWithoutLeadingNewline call whose level argument is below js_ast.LCompare, made in a function that has the caller's flags in hand, must pass flags computed with the forbidIn bit (bit-level dataflow through |, &, &^, phis and the binary visitor's fields) or be one of the reviewed children printed between brackets. R3 (start-hazard consultation): the printExpr case of each node kind that begins with `{`, `function`, `class`, `let`/`async` reads the start marker (stmtStart, exportDefaultStart, arrowExprStart, forOfInitStart, forInitStart) that the grammar's lookahead restriction requires. R5 visit-order: for every statement/expression kind the visit pass visits the children in the order the parse pass parsed them. R6 escape-denotation: the C01/R3 analysis. R7 shape-tests-unwrap-inlined-enum: every type test that decides parentheses around the left operand of `**` is made on the value that passed through the EInlinedEnum unwrapping. R8 line-terminator-set-complete: the C01/R7 analysis. R9 token-enum-vs-character: the C06/R7 lint. R10 escaped-identifier-end-is-guarded: the C01/R8 analysis. R11 dot-after-expression-guarded: every path from the printExpr call that printed a target to a print of `.` consults needSpaceBeforeDot. R12 fixed-child-levels: eleven grammar-fixed child positions are printed with the level constant their category requires. R13 else-presence-as-printed: printer functions that compare SIf.NoOrNil.Data with nil also consult simplifyUnusedExpr. NOT covered: acceptance of the full grammar, ASI and token gluing in the printer (a typestate rule for that was tried and dropped, see DESIGN.md), validity of output beyond this clause.",
 		Run: func(p *Prog, tier string) []*RuleResult {
 			return []*RuleResult{c13Precedence(p), c13InContainment(p), c13StartHazardRule(p), c13NoLookBehindEscape(p), c13VisitOrder(p), c13ShapeTestsUnwrap(p), renamed(c01LineTerminators(p), "C13/R8 line-terminator-set-complete", "a block comment or whitespace run whose only line terminator is U+2028 or U+2029 is a line break: programs that rely on automatic semicolon insertion there (`var a = 1 /*\u2028*/ var b = 2`) are valid and must be accepted, and `return /*\u2028*/ 1` must stay `return; 1` (same analysis as C01/R7)"), renamed(c01EscapeDenotation(p), "C13/R6 escape-denotation", "a string or template escape the printer emits must be valid wherever the literal can be printed: `\\0` directly before a decimal digit (8 and 9 included) is a legacy octal escape, a syntax error in strict code and in every template literal (same analysis as C01/R3)"), tokenVsCharacter(p, "C13/R9 token-enum-vs-character"), escapedIdentifierEndGuarded(p, "C13/R10 escaped-identifier-end-is-guarded"), dotAfterExpressionGuarded(p, "C13/R11 dot-after-expression-guarded"), c13FixedChildLevels(p), elsePresenceAsPrinted(p, "C13/R13 else-presence-as-printed")}
 		},
